@@ -215,6 +215,37 @@ def writeProgram (version : Nat) : List (List (List WObj)) → Option (Bytes × 
     | some (d, i), some (d', i') => some (d ++ d', i ++ i')
     | _, _ => none
 
+/-! ## one data type per channel within a writer session (`TdmsWriter._channel_types`)
+
+`write_segment` refuses (ValueError, before anything is written) an object whose data type differs from the type the same
+channel was written with earlier in the same writer session; an empty untyped array (`Void`) declares no type. A new
+`TdmsWriter` (append mode) starts with an empty table. -/
+
+/-- `(path, type)` of the typed channel data among the objects handed to `write_segment` -/
+def typedChannels (objs : List WObj) : List (Bytes × Nat) :=
+  objs.filterMap fun o => match o with
+    | .channel _ _ d _ => if d.ty = tyVoid then none else some (o.path, d.ty)
+    | _ => none
+
+def lookupType (seen : List (Bytes × Nat)) (p : Bytes) : Option Nat := (seen.find? (·.1 = p)).map (·.2)
+
+/-- the type table after a segment, or `none` for the ValueError -/
+def typesStep (seen : List (Bytes × Nat)) (objs : List WObj) : Option (List (Bytes × Nat)) :=
+  let cts := typedChannels objs
+  if cts.all (fun pt => match lookupType seen pt.1 with | some t => t == pt.2 | none => true)
+  then some (cts ++ seen) else none
+
+def sessionTypesOk : List (Bytes × Nat) → List (List WObj) → Bool
+  | _, [] => true
+  | seen, seg :: rest =>
+    match typesStep seen seg with
+    | none => false
+    | some seen' => sessionTypesOk seen' rest
+
+/-- `writeProgram` with the type guard of every session: what the real `TdmsWriter` does -/
+def writeProgramChecked (version : Nat) (prog : List (List (List WObj))) : Option (Bytes × Bytes) :=
+  if prog.all (sessionTypesOk []) then writeProgram version prog else none
+
 /-! ## `_infer_dtype` for lists of Python ints -/
 
 def listMax : List Int → Int
